@@ -284,12 +284,12 @@ theorem C13_script_dividers_do_not_read_status (salt : List Char) (combined : Bo
 set_option maxRecDepth 10000 in
 /-- the script for `export A=b`, `sh -c 'exit 7' |` and `true`, separate streams, salt `S` -/
 example : compileScript ['S'] false [['e', 'x', 'p', 'o', 'r', 't', ' ', 'A', '=', 'b']] [['s', 'h', ' ', '-', 'c', ' ', '\'', 'e', 'x', 'i', 't', ' ', '7', '\'', ' ', '|'], ['t', 'r', 'u', 'e']] =
-    ['e', 'x', 'p', 'o', 'r', 't', ' ', 'A', '=', 'b', '\n', 's', 'h', ' ', '-', 'c', ' ', '\'', 'e', 'x', 'i', 't', ' ', '7', '\'', ' ', '|', '\n', '\n', '_', '_', 'S', 'C', 'R', 'U', 'T', '_', 'E', 'X', 'I', 'T', '_', 'C', 'O', 'D', 'E', '=', '$', '?', '\n', 'e', 'c', 'h', 'o', ' ', '"', '~', '~', '~', '~', '~', '~', '~', '~', 'E', 'X', 'E', 'C', 'D', 'I', 'V', 'I', 'D', 'E', 'R', ':', ':', 'S', ':', ':', '0', ':', ':', '$', '_', '_', 'S', 'C', 'R', 'U', 'T', '_', 'E', 'X', 'I', 'T', '_', 'C', 'O', 'D', 'E', '"', '\n', '1', '>', '&', '2', ' ', 'e', 'c', 'h', 'o', ' ', '"', '~', '~', '~', '~', '~', '~', '~', '~', 'E', 'X', 'E', 'C', 'D', 'I', 'V', 'I', 'D', 'E', 'R', ':', ':', 'S', ':', ':', '0', ':', ':', '$', '_', '_', 'S', 'C', 'R', 'U', 'T', '_', 'E', 'X', 'I', 'T', '_', 'C', 'O', 'D', 'E', '"', '\n', 'u', 'n', 's', 'e', 't', ' ', '_', '_', 'S', 'C', 'R', 'U', 'T', '_', 'E', 'X', 'I', 'T', '_', 'C', 'O', 'D', 'E', '\n', 't', 'r', 'u', 'e', '\n', '\n', '_', '_', 'S', 'C', 'R', 'U', 'T', '_', 'E', 'X', 'I', 'T', '_', 'C', 'O', 'D', 'E', '=', '$', '?', '\n', 'e', 'c', 'h', 'o', ' ', '"', '~', '~', '~', '~', '~', '~', '~', '~', 'E', 'X', 'E', 'C', 'D', 'I', 'V', 'I', 'D', 'E', 'R', ':', ':', 'S', ':', ':', '1', ':', ':', '$', '_', '_', 'S', 'C', 'R', 'U', 'T', '_', 'E', 'X', 'I', 'T', '_', 'C', 'O', 'D', 'E', '"', '\n', '1', '>', '&', '2', ' ', 'e', 'c', 'h', 'o', ' ', '"', '~', '~', '~', '~', '~', '~', '~', '~', 'E', 'X', 'E', 'C', 'D', 'I', 'V', 'I', 'D', 'E', 'R', ':', ':', 'S', ':', ':', '1', ':', ':', '$', '_', '_', 'S', 'C', 'R', 'U', 'T', '_', 'E', 'X', 'I', 'T', '_', 'C', 'O', 'D', 'E', '"', '\n', 'u', 'n', 's', 'e', 't', ' ', '_', '_', 'S', 'C', 'R', 'U', 'T', '_', 'E', 'X', 'I', 'T', '_', 'C', 'O', 'D', 'E'] := by decide
+    ['e', 'x', 'p', 'o', 'r', 't', ' ', 'A', '=', 'b', '\n', 's', 'h', ' ', '-', 'c', ' ', '\'', 'e', 'x', 'i', 't', ' ', '7', '\'', ' ', '|', '\n', '\n', '_', '_', 'S', 'C', 'R', 'U', 'T', '_', 'E', 'X', 'I', 'T', '_', 'C', 'O', 'D', 'E', '=', '$', '?', '\n', '\\', 'b', 'u', 'i', 'l', 't', 'i', 'n', ' ', 'e', 'c', 'h', 'o', ' ', '"', '~', '~', '~', '~', '~', '~', '~', '~', 'E', 'X', 'E', 'C', 'D', 'I', 'V', 'I', 'D', 'E', 'R', ':', ':', 'S', ':', ':', '0', ':', ':', '$', '_', '_', 'S', 'C', 'R', 'U', 'T', '_', 'E', 'X', 'I', 'T', '_', 'C', 'O', 'D', 'E', '"', '\n', '1', '>', '&', '2', ' ', '\\', 'b', 'u', 'i', 'l', 't', 'i', 'n', ' ', 'e', 'c', 'h', 'o', ' ', '"', '~', '~', '~', '~', '~', '~', '~', '~', 'E', 'X', 'E', 'C', 'D', 'I', 'V', 'I', 'D', 'E', 'R', ':', ':', 'S', ':', ':', '0', ':', ':', '$', '_', '_', 'S', 'C', 'R', 'U', 'T', '_', 'E', 'X', 'I', 'T', '_', 'C', 'O', 'D', 'E', '"', '\n', '\\', 'b', 'u', 'i', 'l', 't', 'i', 'n', ' ', 'u', 'n', 's', 'e', 't', ' ', '_', '_', 'S', 'C', 'R', 'U', 'T', '_', 'E', 'X', 'I', 'T', '_', 'C', 'O', 'D', 'E', '\n', 't', 'r', 'u', 'e', '\n', '\n', '_', '_', 'S', 'C', 'R', 'U', 'T', '_', 'E', 'X', 'I', 'T', '_', 'C', 'O', 'D', 'E', '=', '$', '?', '\n', '\\', 'b', 'u', 'i', 'l', 't', 'i', 'n', ' ', 'e', 'c', 'h', 'o', ' ', '"', '~', '~', '~', '~', '~', '~', '~', '~', 'E', 'X', 'E', 'C', 'D', 'I', 'V', 'I', 'D', 'E', 'R', ':', ':', 'S', ':', ':', '1', ':', ':', '$', '_', '_', 'S', 'C', 'R', 'U', 'T', '_', 'E', 'X', 'I', 'T', '_', 'C', 'O', 'D', 'E', '"', '\n', '1', '>', '&', '2', ' ', '\\', 'b', 'u', 'i', 'l', 't', 'i', 'n', ' ', 'e', 'c', 'h', 'o', ' ', '"', '~', '~', '~', '~', '~', '~', '~', '~', 'E', 'X', 'E', 'C', 'D', 'I', 'V', 'I', 'D', 'E', 'R', ':', ':', 'S', ':', ':', '1', ':', ':', '$', '_', '_', 'S', 'C', 'R', 'U', 'T', '_', 'E', 'X', 'I', 'T', '_', 'C', 'O', 'D', 'E', '"', '\n', '\\', 'b', 'u', 'i', 'l', 't', 'i', 'n', ' ', 'u', 'n', 's', 'e', 't', ' ', '_', '_', 'S', 'C', 'R', 'U', 'T', '_', 'E', 'X', 'I', 'T', '_', 'C', 'O', 'D', 'E'] := by decide
 
 set_option maxRecDepth 10000 in
 /-- … and for `a |` alone, `combined` -/
 example : compileScript ['S'] true [] [['a', ' ', '|']] =
-    ['a', ' ', '|', '\n', '\n', '_', '_', 'S', 'C', 'R', 'U', 'T', '_', 'E', 'X', 'I', 'T', '_', 'C', 'O', 'D', 'E', '=', '$', '?', '\n', 'e', 'c', 'h', 'o', ' ', '"', '~', '~', '~', '~', '~', '~', '~', '~', 'E', 'X', 'E', 'C', 'D', 'I', 'V', 'I', 'D', 'E', 'R', ':', ':', 'S', ':', ':', '0', ':', ':', '$', '_', '_', 'S', 'C', 'R', 'U', 'T', '_', 'E', 'X', 'I', 'T', '_', 'C', 'O', 'D', 'E', '"', '\n', 'u', 'n', 's', 'e', 't', ' ', '_', '_', 'S', 'C', 'R', 'U', 'T', '_', 'E', 'X', 'I', 'T', '_', 'C', 'O', 'D', 'E'] := by decide
+    ['a', ' ', '|', '\n', '\n', '_', '_', 'S', 'C', 'R', 'U', 'T', '_', 'E', 'X', 'I', 'T', '_', 'C', 'O', 'D', 'E', '=', '$', '?', '\n', '\\', 'b', 'u', 'i', 'l', 't', 'i', 'n', ' ', 'e', 'c', 'h', 'o', ' ', '"', '~', '~', '~', '~', '~', '~', '~', '~', 'E', 'X', 'E', 'C', 'D', 'I', 'V', 'I', 'D', 'E', 'R', ':', ':', 'S', ':', ':', '0', ':', ':', '$', '_', '_', 'S', 'C', 'R', 'U', 'T', '_', 'E', 'X', 'I', 'T', '_', 'C', 'O', 'D', 'E', '"', '\n', '\\', 'b', 'u', 'i', 'l', 't', 'i', 'n', ' ', 'u', 'n', 's', 'e', 't', ' ', '_', '_', 'S', 'C', 'R', 'U', 'T', '_', 'E', 'X', 'I', 'T', '_', 'C', 'O', 'D', 'E'] := by decide
 
 /-! ## non-vacuity -/
 
